@@ -6,11 +6,34 @@ From CPL Require Import Model.Base Model.Totalistic.
    mask: None for a plain ndarray, Some m for np.ma.masked_array(cells, m) (flattened);
    vn: Some r = the mask was built like evolve2d builds the von Neumann mask of radius r
    (the model's von_neumann_mask r must equal the mask given) *)
+(* one neighbourhood of a sequence: dtype flag, flattened cells, mask (None = plain ndarray), von Neumann radius *)
+Inductive item := Item (unsigned : bool) (cells : list Z) (mask : option (list bool)) (vn : option nat).
+
+(* CSeq: ONE TotalisticRule(k, rule) object called on the items in order (c = the position, t = 1);
+   obs = what each call returned *)
 Inductive case :=
 | CTot (cls unsigned : bool) (cells : list Z) (mask : option (list bool)) (vn : option nat)
-       (k rule : N) (obs : res Z).
+       (k rule : N) (obs : res Z)
+| CSeq (k rule : N) (items : list item) (obs : list (res Z)).
 
-Definition model_out (c : case) : res Z :=
+Definition item_nb (it : item) : nbhd :=
+  match it with
+  | Item u cells None _ => Plain u cells
+  | Item u cells (Some m) _ => Masked u cells m
+  end.
+Definition item_mask_ok (it : item) : bool :=
+  match it with
+  | Item _ _ (Some m) (Some r) => list_eqb Bool.eqb m (von_neumann_mask r)
+  | _ => true
+  end.
+Definition item_in_domain (k : N) (it : item) : bool :=
+  match it with Item _ cells _ _ => forallb (fun x => (0 <=? x)%Z && (x <=? Z.of_N k - 1)%Z) cells end.
+Definition seq_calls (items : list item) : list (nbhd * Z * nat) :=
+  map (fun p => (item_nb (snd p), Z.of_nat (fst p), 1)) (combine (seq 0 (length items)) items).
+Definition seq_model (k rule : N) (items : list item) : list (res Z) :=
+  map (fun r => bind r (fun d => Ok (Z.of_N d))) (TotalisticRule_seq k rule (seq_calls items)).
+
+Definition model_one (c : case) : res Z :=
   match c with
   | CTot cls u cells mask _ k rule _ =>
       bind (match mask with
@@ -18,12 +41,21 @@ Definition model_out (c : case) : res Z :=
             | Some m => if cls then TotalisticRule_call_masked k rule u cells m 0%Z 1
                         else totalistic_rule_masked u cells m k rule
             end) (fun d => Ok (Z.of_N d))
+  | CSeq _ _ _ _ => Raise OtherError
+  end.
+
+(* what the model computes, call by call (one entry for CTot) *)
+Definition model_out (c : case) : list (res Z) :=
+  match c with
+  | CTot _ _ _ _ _ _ _ _ => [model_one c]
+  | CSeq k rule items _ => seq_model k rule items
   end.
 
 Definition mask_ok (c : case) : bool :=
   match c with
   | CTot _ _ _ (Some m) (Some r) _ _ _ => list_eqb Bool.eqb m (von_neumann_mask r)
-  | _ => true
+  | CTot _ _ _ _ _ _ _ _ => true
+  | CSeq _ _ items _ => forallb item_mask_ok items
   end.
 
 (* ValueError is the class the property names: it must be raised by both or by neither.
@@ -43,13 +75,16 @@ Definition in_domain (c : case) : bool :=
   match c with
   | CTot _ _ cells _ _ k _ _ =>
       (2 <=? k)%N && (k <=? 36)%N && forallb (fun x => (0 <=? x)%Z && (x <=? Z.of_N k - 1)%Z) cells
+  | CSeq k _ items _ => (2 <=? k)%N && (k <=? 36)%N && forallb (item_in_domain k) items
   end.
 
-Definition check_case (c : case) : bool :=
-  match c with
-  | CTot _ _ _ _ _ _ _ obs => mask_ok c && (if in_domain c then res_agree (model_out c) obs else true)
-  end.
+Definition observed (c : case) : list (res Z) :=
+  match c with CTot _ _ _ _ _ _ _ obs => [obs] | CSeq _ _ _ obs => obs end.
 
-(* strict variant, also outside the domain (used once by hand, see notes/agents/C08.md) *)
-Definition check_case_strict (c : case) : bool :=
-  match c with CTot _ _ _ _ _ _ _ obs => res_agree (model_out c) obs && mask_ok c end.
+(* every call of a sequence must agree, and there must be as many answers as calls *)
+Definition all_agree (c : case) : bool := list_eqb res_agree (model_out c) (observed c).
+
+Definition check_case (c : case) : bool := mask_ok c && (if in_domain c then all_agree c else true).
+
+(* strict variant, also outside the domain (VERIF_C08_STRICT=1, see notes/agents/C08.md) *)
+Definition check_case_strict (c : case) : bool := all_agree c && mask_ok c.
